@@ -120,9 +120,25 @@ def run_cmd_on(text, cmd, ext='.smt2'):
 # history analysis
 
 
+def lag_problems(ev):
+    """C06: an adopted input is on disk before ddSMT goes on to the next result (the file never lags behind the adopted input)."""
+    pending = None
+    for e in ev:
+        if not e.get('main'):
+            continue
+        if e['ev'] == 'ddmin_update':
+            pending = e['digest']
+        elif e['ev'] == 'write_done':
+            pending = None
+        elif e['ev'] in ('ddmin_progress', 'ddmin_task') and pending is not None and e.get('thread') == 'MainThread':
+            return [f"the input {pending} was adopted but the output file had not been rewritten when ddSMT went on to the next result "
+                    f"(an interrupt or a reader at that moment finds an older input, or no file)"]
+    return []
+
+
 def analyse(run):
     """Property-level facts of one recorded run.  Returns dict of lists of problems keyed by property id."""
-    P = {k: [] for k in ('C01', 'C04', 'C05', 'C13', 'C14')}
+    P = {k: [] for k in ('C01', 'C04', 'C05', 'C06', 'C13', 'C14')}
     ev = run.events
     if run.hung:
         P['C04'].append('run did not finish within the harness time limit')
@@ -192,6 +208,7 @@ def analyse(run):
             cur2 = e['digest']
         elif e['ev'] == 'consume' and e['success']:
             cur2 = e['cand']
+    P['C06'] += lag_problems(ev)
     # C05/C01: file left at exit is the last element
     if writes:
         if run.outtext is None:
